@@ -234,6 +234,11 @@ def run_case(job):
             argv = [a if a != "s.yaml" else box.path("work", "s.yaml") for a in argv]
             argv[argv.index("-o") + 1] = box.path("work", "out")
             r = box.run(argv + ["../../in"], cwd="work/build/deep", schedule=schedule, user_config=ucfg)
+        elif variant == "out-inside":
+            # the output directory is a direct child of the input directory and bears the name of deeper directories
+            # ('deep'): what is written there is no exclusion pattern
+            argv[argv.index("-o") + 1] = "in/deep"
+            r = box.run(argv + ["in"], schedule=schedule, user_config=ucfg)
         elif variant == "excluded-first":
             # an input that is itself excluded in front of (and behind) the one under test: it is skipped, the others are not
             box.build({"first/zz.cmake": fsbox.cmake_content("zz.cmake"), "last/zz.cmake": fsbox.cmake_content("zz.cmake")})
@@ -245,7 +250,7 @@ def run_case(job):
             r = box.run(argv + ["first", "in"], schedule=schedule, user_config=ucfg)
         else:
             r = box.run(argv + ["in"], schedule=schedule, user_config=ucfg)
-        outdir = box.path("work", "out")
+        outdir = box.path("work", "out") if variant != "out-inside" else box.path("work", "in", "deep")
         if r["status"] != 0:
             msgs.append(f"error: run failed: {r['exc'] or r['stdout'][-200:]}")
         elif exp is None:
@@ -253,7 +258,7 @@ def run_case(job):
                 msgs.append(f"excluded-input: the input path itself is excluded but output was produced: "
                             f"{sorted(box.files('work/out')) or 'empty directory'}")
         else:
-            got = set(box.files("work/out")) if os.path.isdir(outdir) else set()
+            got = set(box.files(os.path.relpath(outdir, box.root))) if os.path.isdir(outdir) else set()
             if variant == "two-inputs":
                 got -= {"zz.rst"}       # the first input's own page (its index.rst is overwritten by the second input's)
             want = dirmodel.expected_files(exp)
@@ -313,6 +318,9 @@ def run(ctx):
         jobs.append((FILES, DIRS, ps, "cli", True, None, False, "cwd-elsewhere"))
         if not any(p in ("INPUT/", "in", "in/", "i*/", "**/in/", "ANCESTOR/", "*.cmake") for p in ps):
             jobs.append((FILES, DIRS, ps, "sfile", True, None, False, "two-inputs"))
+    for ps in [[]] + [[p] for p in ("k.cmake", "x2/", "e*.cmake", "m.cmake")]:
+        jobs.append((FILES, DIRS, ps, "cli", True, None, False, "out-inside"))
+        jobs.append((FILES, DIRS, ps, "sfile", True, ("reversed", ()), False, "out-inside"))
     for ps in psets:
         jobs.append((FILES, DIRS, ps, "cli", True, None, False, "dotdot"))
         if not any(p in ("INPUT/", "in", "in/", "i*/", "**/in/", "ANCESTOR/", "*.cmake", "BOX/*", "ANCESTOR/*", "**/work/*") for p in ps):
